@@ -665,6 +665,7 @@ fn main() {
     let t_phase = std::time::Instant::now();
     let mut phase_s: Vec<(String, f64)> = vec![];
     replay_known(&mut cx);
+    run_reentrant_family(&mut cx);
     phase_s.push(("known".into(), t_phase.elapsed().as_secs_f64()));
 
     // ---- 1. corpus --------------------------------------------------------------------------------
@@ -874,6 +875,8 @@ fn run_stress_phases(cx: &mut Cx) {
             cx.stress_big(&s, check_reverse);
             let s = gen_slots(&mut r, n, k);
             cx.stress_big(&s, check_slots);
+            let s = gen_vm_reads(&mut r, n, k);
+            cx.stress_big(&s, check_vm_reads);
         }
     }
     cx.rep.extra.insert("stress_phase_end_s".into(), json!({"pairs": t_pairs, "selftest": t_self, "small": t_small, "big": t0.elapsed().as_secs_f64(),
